@@ -698,13 +698,15 @@ class Translator:
 FEATURES = ("developer",)
 
 
-def generate(repo=None, features=FEATURES, write=True):
+def generate(repo=None, features=FEATURES, write=True, only_rust=False):
     repo = repo or os.environ.get("VERIF_REPO", "/repo")
     t = Translator(read_source(repo, features)).run()
     coq, rust = t.coq(repo), t.rust(repo)
     if write:
         targets = [(os.path.join(ROOT, "coq", "theories", "Gen", "WireGen.v"), coq),
                    (os.path.join(ROOT, "harness", "src", "gen", "wire_gen.rs"), rust)]
+        if only_rust:
+            targets = targets[1:]
         for path, text in targets:
             os.makedirs(os.path.dirname(path), exist_ok=True)
             tmp = path + ".tmp"
